@@ -97,6 +97,18 @@ def call_wide(g, da, mo, wi, rule):
                                  boundary=rule, fill_value=3.0, dask="allowed" if mo else "parallelized", map_overlap=mo)
 
 
+def call_multi(g, da, kind):
+    """user ufuncs whose numbers of inputs and outputs differ (no map_overlap: the core dim is not chunked)"""
+    if kind == "1to2":
+        f = lambda a: (a[..., 1:] - a[..., :-1], a[..., 1:-0 or None][..., : a.shape[-1] - 1] * 2.0)
+        r = g.apply_as_grid_ufunc(f, da, axis=[("X",)], signature="(X:center)->(X:left),(X:center)", boundary_width={"X": (1, 0)},
+                                  boundary="extend", dask="parallelized")
+        return r[0] + r[1].rename(xc="xl").assign_coords(xl=r[0].xl)
+    f2 = lambda a, b: a[..., 1:] - b[..., :-1]
+    return g.apply_as_grid_ufunc(f2, da, da * 3.0 + 1.0, axis=[("X",), ("X",)], signature="(X:center),(X:center)->(X:left)",
+                                 boundary_width={"X": (1, 0)}, boundary="fill", fill_value=2.0, dask="parallelized")
+
+
 def call_ufunc(g, da, mo):
     return g.apply_as_grid_ufunc(_ufunc, da, axis=[("X",)], signature="(X:center)->(X:left)", boundary_width={"X": (1, 0)},
                                  boundary="fill", fill_value=3.0, dask="allowed" if mo else "parallelized", map_overlap=mo)
@@ -199,6 +211,7 @@ def part_A(rec, tier, seed, fr, to, only=None):
                     ops += [("integrate", "X", {}), ("average", "X", {}), ("integrate", ["X", "Y"], {}), ("diff", "Y", dict(to="left")),
                             ("cumsum", ["Y", "X"], dict(to="left")), ("interp", ["X", "Y"], dict(to="left", boundary="fill", fill_value=2.0)),
                             ("ufunc", "mo", {}), ("ufunc", "nomo", {})]
+                    ops += [("multi", "1to2", {}), ("multi", "2to1", {})]
                     # user ufuncs whose halo is wider than some chunks
                     ops += [("wide", (wi, rule), {}) for wi in range(len(WIDE)) for rule in ("fill", "periodic", "extend")]
                 if fr != "center" and to == "center":
@@ -212,7 +225,13 @@ def part_A(rec, tier, seed, fr, to, only=None):
                         gg = glazy if lm else g
                         chunked_axis = len(cx) > 1 if (axis == "X" or axis == "mo" or axis == "nomo" or op == "wide" or (isinstance(axis, list) and "X" in axis)) else False
                         chunked_y = len(cy) > 1 and (axis == "Y" or (isinstance(axis, list) and "Y" in axis))
-                        if op == "wide":
+                        if op == "multi":
+                            if len(cx) > 1:
+                                continue
+                            build = lambda: call_multi(gg, e_in.chunk(chunks), axis)
+                            eager = lambda: call_multi(gg, e_in, axis)
+                            refuse = False
+                        elif op == "wide":
                             wi, wrule = axis
                             case = dict(case, axis=[wi, wrule])
                             build = lambda: call_wide(gg, e_in.chunk(chunks), True, wi, wrule)
@@ -230,7 +249,7 @@ def part_A(rec, tier, seed, fr, to, only=None):
                             eager = lambda: call(gg, op, e_in, axis, kw)
                             refuse = chunked_axis and io and op in REFUSABLE
                         anych = len(cx) > 1 or len(ct) > 1 or len(cy) > 1
-                        if op not in ("ufunc", "wide") and idx % 4 == 1:
+                        if op not in ("ufunc", "wide", "multi") and idx % 4 == 1:
                             # the operated dimension first, in single precision: neither the position of
                             # the core dimension among the others nor the dtype may matter
                             e_t = e_in.transpose(POSD[fr], "t", "yc").astype(np.float32)
@@ -238,14 +257,14 @@ def part_A(rec, tier, seed, fr, to, only=None):
                             build = lambda: call(gg, op, e_t.chunk(chunks), axis, kw)
                             eager = lambda: call(gg, op, e_t, axis, kw)
                         second = None
-                        if op not in ("ufunc", "wide") and idx % 6 == 2:
+                        if op not in ("ufunc", "wide", "multi") and idx % 6 == 2:
                             # the input carries a dask-backed 2-D auxiliary coordinate chunked differently from the data
                             aux = xr.DataArray(np.arange(2.0 * m).reshape(2, m), dims=["yc", POSD[fr]]).chunk({"yc": 1, POSD[fr]: m})
                             e_aux = e_in.assign_coords(aux=aux)
                             case = dict(case, layout="dask-aux-coordinate")
                             build = lambda: call(gg, op, e_in.chunk(chunks).assign_coords(aux=aux), axis, kw)
                             eager = lambda: call(gg, op, e_aux.compute(), axis, kw)
-                        if op not in ("ufunc", "wide") and idx % 3 == 0:
+                        if op not in ("ufunc", "wide", "multi") and idx % 3 == 0:
                             e2_in = (e_in * 3 + 1).rename("q2")
                             second = (lambda: call(gg, op, e2_in.chunk(chunks), axis, kw), lambda: call(gg, op, e2_in, axis, kw))
                         check_lazy(rec, "simple-grid", case, build, eager, refuse, anych,
